@@ -257,8 +257,41 @@ def heap_term(heap) -> str:
     return "[" + "; ".join(items) + "]"
 
 
-def py_iso(a, b) -> Optional[str]:
-    """Identity-tracking bisimulation between two python object graphs; None if isomorphic, else the first difference."""
+PARENT_SCAL = {"DerivedEntity": ["name"]}   # scalars of an ALTBASE object that from_dao takes from the alternatively mapped parent
+
+
+def all_objects(root) -> List[Any]:
+    out: List[Any] = []
+    seen = set()
+    todo = [root]
+    while todo:
+        o = todo.pop()
+        if o is None or id(o) in seen:
+            continue
+        seen.add(id(o))
+        out.append(o)
+        for f, kind, _t, _opt in REFS.get(type(o).__name__, []):
+            v = getattr(o, f, None)
+            if kind == "one":
+                todo.append(v)
+            else:
+                try:
+                    todo.extend(list(v))
+                except TypeError:
+                    pass
+    return out
+
+
+def py_iso(a, b, relax_altbase: bool = False) -> Optional[str]:
+    """Identity-tracking bisimulation between two python object graphs; None if isomorphic, else the first difference.
+    relax_altbase (matcher of finding C04-c): a parent-provided scalar of an ALTBASE object may carry the value that
+    ANOTHER object of that class has in the input graph; everything else must agree exactly."""
+    pool: Dict[Tuple[str, str], set] = {}
+    if relax_altbase:
+        for o in all_objects(a):
+            cn = type(o).__name__
+            for f in PARENT_SCAL.get(cn, []):
+                pool.setdefault((cn, f), set()).add(scalar_key(get_scalar(o, f)))
     m_ab: Dict[int, Any] = {}
     m_ba: Dict[int, Any] = {}
     stack = [(a, b, "root")]
@@ -281,6 +314,8 @@ def py_iso(a, b) -> Optional[str]:
         cn = type(x).__name__
         for f in SCAL.get(cn, []):
             if not has_scalar(y, f) or scalar_key(get_scalar(x, f)) != scalar_key(get_scalar(y, f)):
+                if relax_altbase and has_scalar(y, f) and scalar_key(get_scalar(y, f)) in pool.get((cn, f), ()):
+                    continue
                 return f"{path}.{f}: value {get_scalar(x, f)!r:.40} vs {getattr(y, f, '<missing>')!r:.40}"
         for f, kind, _t, _opt in REFS.get(cn, []):
             u, v = getattr(x, f), getattr(y, f, None)
@@ -484,7 +519,7 @@ def run_impl(descr) -> Dict[str, Any]:
     except Exception as e:  # noqa
         return {"exc": f"{type(e).__name__}: {str(e)[:120]}"}
     heap, r, anomalies = dump(back, reverse=True)
-    return {"heap": heap, "root": r, "anomalies": anomalies, "py_iso": py_iso(root, back)}
+    return {"heap": heap, "root": r, "anomalies": anomalies, "py_iso": py_iso(root, back), "_objs": (root, back)}
 
 
 def input_heap(descr):
@@ -578,6 +613,48 @@ def state_reuse_scenario(attempts: int = 400) -> Dict[str, Any]:
     return {"reused": False}
 
 
+def altbase_tmp_scenario() -> Dict[str, Any]:
+    """C04-c: objects whose DAO inherits from an alternatively mapped DAO (DerivedEntityDAO below CustomEntityDAO).
+    from_dao builds a TEMPORARY parent DAO per object and memoises its result under id(temporary); once the temporary
+    has been collected the next object's temporary can get the same id() and is handed the previous object's base fields.
+    Deterministic form: one FromDAOState, four DerivedEntity DAOs, a garbage collection between the conversions."""
+    from krrood.ormatic.dao import to_dao, FromDAOState
+    from test.dataset.example_classes import DerivedEntity
+    setup_impl()
+    first = None
+    nwrong = 0
+    trials = 40
+    for _t in range(trials):
+        ents = [DerivedEntity(f"d{i}", description=f"x{i}") for i in range(4)]
+        daos = [to_dao(e) for e in ents]
+        st = FromDAOState()
+        out = []
+        for d in daos:
+            out.append(d.from_dao(st))
+            gc.collect()
+        names, expected = [o.name for o in out], [e.name for e in ents]
+        wrong = [i for i in range(4) if names[i] != expected[i]]
+        if wrong:
+            nwrong += 1
+            if first is None:
+                first = {"names": names, "expected": expected, "wrong": wrong,
+                         "as_predicted": all(names[i] in expected[:i] for i in wrong) and
+                                         [o.description for o in out] == [e.description for e in ents]}
+    res = first or {"names": None, "wrong": [], "as_predicted": False}
+    res.update(trials=trials, trials_wrong=nwrong)
+    return res
+
+
+def altbase_tmp_observe() -> Dict[str, Any]:
+    """Run the scenario in a fresh interpreter (the id() reuse depends on the allocator's state)."""
+    rc, out = core.sh([core.PY, "-c", "import json; from harness import c04; print('RESULT ' + json.dumps(c04.altbase_tmp_scenario()))"],
+                      cwd=str(core.VERIF), env=core.IMPL_ENV, timeout=300)
+    for line in out.splitlines():
+        if line.startswith("RESULT "):
+            return json.loads(line[7:])
+    return {"names": None, "wrong": [], "as_predicted": False, "error": out[-300:]}
+
+
 def todao_state_scenario(n: int = 400) -> Dict[str, Any]:
     """One ToDAOState for many to_dao calls on short-lived objects: keep_alive must pin every converted object, otherwise a
     later object can get the id() of a dead one and receive the dead one's DAO from the memo."""
@@ -605,7 +682,8 @@ def run(tier: str, seed: int, replay=None) -> int:
         "user code of the dataset (create_instance/create_from_dao of the alternative mappings, ContainerGeneration.__post_init__) "
         "is run, not modelled; generated data respect it (Backreference.unmappable = {v: v}; items belong to one container)",
     ]
-    rep.assume = ["CPython id() is unique among live objects; ToDAOState.keep_alive pins every converted object (modelled: fixed source heap)",
+    rep.assume = ["CPython id() is unique among live objects; ToDAOState.keep_alive and (since 32013a0) FromDAOState.keep_alive pin every memoised "
+                  "object (modelled: state field [keep], invariant C04_keep_alive_invariant; histories over one heap, C04_state_reuse_safe)",
                   "dataclass __init__ assigns exactly the given kwargs (the setattr fallback yields the same fields)"]
     rep.rule = ("random rooted graphs over 22 dataset classes (1..12 objects; reuse probability 0/0.3/0.6 over ALL compatible earlier "
                 "objects incl. ancestors => shared nodes, back references, cycles incl. self loops; optional refs None with p 0.1/0.4; "
@@ -684,6 +762,8 @@ def run(tier: str, seed: int, replay=None) -> int:
     codes: Dict[int, List[int]] = {i: v for (i, _), v in zip(exprs, vals)}
 
     kf_altcycle = 0
+    kf_altbase = 0
+    c04c_open = any(f.fid == "C04-c" and f.kind == "open" for f in findings)
     stale = 0
     bad: List[Tuple[dict, str]] = []
     for i, m in enumerate(metas):
@@ -713,11 +793,14 @@ def run(tier: str, seed: int, replay=None) -> int:
         if code == 2 and ft["altcycle"]:
             kf_altcycle += 1
             continue
+        if c04c_open and ft["altbase_objs"] >= 2 and "_objs" in res and py_iso(res["_objs"][0], res["_objs"][1], relax_altbase=True) is None:
+            kf_altbase += 1          # finding C04-c (not modelled: DAO below an alternatively mapped DAO); narrow matcher above
+            continue
         bad.append((m, f"code {code}: {res['py_iso']}"))
     if stale:
         rep.note(f"{stale} cases outside F04 where impl = spec but the model predicts a failure (model inexact / finding repaired)")
     rep.extra["distribution"] = dist
-    rep.extra["known_finding_instances"] = {"C04-a": kf_altcycle}
+    rep.extra["known_finding_instances"] = {"C04-a": kf_altcycle, "C04-c": kf_altbase}
     rep.samples = [{"case": m["descr"], "features": m["ft"]} for m in metas[:: max(1, len(metas) // 5)]][:5]
 
     for m, why in bad[:5]:
@@ -755,6 +838,18 @@ def run(tier: str, seed: int, replay=None) -> int:
         if f.cls == "K_state_reuse":
             _run_state_reuse(rep, [f], only=False)
             continue
+        if f.cls == "K_altbase_tmp":
+            obs = altbase_tmp_observe()
+            rep.count("altbase_tmp", True)
+            rep.extra["altbase_tmp"] = obs
+            if obs["wrong"] and obs["as_predicted"] and f.kind == "open":
+                rep.known(f)
+            elif obs["wrong"]:
+                rep.violation({"kind": "counterexample", "case": {"scenario": "altbase_tmp"}, "impl": obs,
+                               "python": "from harness import c04; print(c04.altbase_tmp_scenario())"})
+            elif f.kind == "open":
+                rep.note("known finding C04-c: the scenario no longer yields a wrong object (finding appears repaired, or the allocator did not reuse the address)")
+            continue
         still = any(m["origin"] == f.witness and m.get("code") == 2 for m in metas) if replay is None else None
         if replay is not None:
             continue
@@ -775,7 +870,8 @@ def _run_state_reuse(rep: Report, findings, only: bool) -> int:
     rep.extra["state_reuse"] = obs
     fs = [f for f in findings if f.cls == "K_state_reuse"]
     if not obs.get("reused"):
-        rep.note("C04-b: the allocator did not hand out the released DAO's address again in this run; scenario not exercised")
+        if not (fs and fs[0].kind == "fixed"):   # with keep_alive no id() is ever handed out again: the fixed witness passes silently
+            rep.note("C04-b: the allocator did not hand out the released DAO's address again in this run; scenario not exercised")
     elif obs["returned_first_object"]:
         # exactly what the model predicts (C04_refuted_state_reuse): the memo hit returns the first load's object
         if fs and fs[0].kind == "open":
